@@ -72,6 +72,7 @@ NoCmd == [s |-> 0, kind |-> "none", ty |-> 0, e |-> 0, d |-> 0, p |-> 0, st |-> 
 (* their data in the shadow (everything but target and status), and order (C12) is judged on the data's sequence.   *)
 F1Why == "F1: a polled reaction ran between another delivery's application and its start, and their data got mixed"
 F2Why == "F2: the entity world reactor ran for an entity that was despawned after the reaction was scheduled (EntityLocal::get panics there)"
+F2bWhy == "F2: the entity world reactor ran for an entity that was removed from it after the reaction was scheduled (EntityLocal::get panics there)"
 Pending == {"reached", "postponed", "replaying"}
 SwapData(m, a, b) ==
     LET ca == m.cmd[a]  cb == m.cmd[b]
@@ -605,6 +606,8 @@ OnRun(m, o) ==
         m8 == IF isEW /\ c.kind \in {"eev", "ereact"}
               THEN IF c.e \notin m.aliveE
                    THEN V2(m7, "C16", "C18", F2Why)
+                   ELSE IF Get(m.elocal, c.e, 0) = 0 /\ o.el = <<-1, -1>>
+                   THEN V(m7, "C16", F2bWhy)       \* same defect: the pending reaction outlives the entity's membership
                    ELSE Chk(m7, o.el = <<c.e, Get(m.elocal, c.e, 0)>>, "C16", IF tainted THEN F1Why ELSE "entity world reactor saw the wrong local data")
               ELSE m7
     IN m8
@@ -834,6 +837,6 @@ MonStep(m, o) ==
 MonSeq(m, s) == FoldSeq(MonStep, m, s)
 
 (* violations of property p, not counting recorded findings (known_findings.json) *)
-KnownWhys == {F1Why, F2Why}
+KnownWhys == {F1Why, F2Why, F2bWhy}
 ViolOf(m, p) == { v \in m.viol : v[1] = p /\ v[2] \notin KnownWhys }
 =============================================================================
